@@ -59,7 +59,7 @@ func keyFamily(store string, k []byte) string {
 		}
 	}
 	s := b.String()
-	s = regexp.MustCompile(`testchain[0-9]+|bscchain[0-9]+|ethchain[0-9]+|fict[a-z0-9]*`).ReplaceAllString(s, "<chain>")
+	s = regexp.MustCompile(`[a-z]*chain[0-9]+|fict[a-z0-9]*`).ReplaceAllString(s, "<chain>")
 	s = reHexRun.ReplaceAllString(s, "<hex>")
 	s = reNum.ReplaceAllString(s, "<n>")
 	return store + ":" + s
